@@ -205,7 +205,7 @@ class ExprMixin:
         items = [self.eval(x) for x in e.elts]
         t = self.expect_type(e) or (ty.TList(self.type_of(items[0])) if items else None)
         if t is None:
-            raise Unsupported('list literal of unknown element type (add a sidecar local type)')
+            t = ty.parse('list[any]')          # untyped empty display: elements are opaque values
         return self.new_list(t, items)
 
     def e_Dict(self, e):
@@ -496,7 +496,10 @@ class ExprMixin:
             ga = prog.find_method(cname, '__getattr__')
             if ga is not None:
                 return self.call_function(ga, [obj, VStr(self.ctx.strid(name), name)], {})
-            raise Unsupported(f'attribute {cname}.{name} (no sidecar field type)')
+            # attribute without a sidecar type (e.g. a cache added by an edit): an opaque field
+            self.reg.fields[(cname, name)] = 'any'
+            self.reg.auto_fields.add(name)
+            return self.read_field(obj, name, ty.ANY)
         ft = self.field_type(cname, name)
         if ft is not None:
             return self.read_field(obj, name, ft)
